@@ -77,6 +77,7 @@ func corpus(t testing.TB) [][]byte {
 }
 
 var extra = []string{
+	"steps:\n  - command: x\n    timeout_in_minutes: .inf\nnotify: [.nan, -.inf]\n",
 	"steps:\n  - command: a\n  - wait\n  - block: b\n  - trigger: t\n  - group: g\n    steps:\n      - command: x\n      - mystery: 1\n  - unknown: y\n",
 	"- command: legacy\n- wait\n",
 	"steps: null\n",
@@ -85,6 +86,39 @@ var extra = []string{
 	"steps:\n  - group: ~\n    steps: ~\n  - group: g2\n    steps:\n      - group: inner\n        steps: [wait, {command: c}]\n",
 	"a: &a {command: shared}\nsteps:\n  - *a\n  - <<: *a\n    label: l\n",
 	"steps:\n  - command: c\n    matrix: [a, b]\n    plugins:\n      - docker#v1: {image: x}\n      - cache\n    cache: p\n    env: {K: v}\n    signature: {algorithm: a, value: v, signed_fields: [command]}\n",
+}
+
+// ---- known findings (read-only) ----
+
+var (
+	knownHits int
+	knownWhat string
+)
+
+func nonFinite(err error) bool {
+	m := err.Error()
+	return strings.Contains(m, "unsupported value: +Inf") || strings.Contains(m, "unsupported value: -Inf") || strings.Contains(m, "unsupported value: NaN")
+}
+
+func knownOpen(prop, witness string) (string, bool) {
+	dir := os.Getenv("VERIF_DIR")
+	if dir == "" {
+		dir = "/verif"
+	}
+	data, err := os.ReadFile(dir + "/known_findings.txt")
+	if err != nil {
+		return "", false
+	}
+	for _, line := range strings.Split(string(data), "\n") {
+		line = strings.TrimSpace(line)
+		if strings.HasPrefix(line, "open:") && strings.Contains(line, "property="+prop+" ") && strings.Contains(line, "witness="+witness+" ") {
+			if i := strings.Index(line, "::"); i >= 0 {
+				return strings.TrimSpace(line[i+2:]), true
+			}
+			return line, true
+		}
+	}
+	return "", false
 }
 
 // ---- oracle ----
@@ -196,7 +230,8 @@ func checkSteps(where string, steps pipeline.Steps, entries []any, fallbacks *in
 		if got == "*pipeline.UnknownStep" {
 			*fallbacks++
 			u := st.(*pipeline.UnknownStep)
-			if !reflect.DeepEqual(ordered.ToMapRecursive(u.Contents), ordered.ToMapRecursive(entries[i])) {
+			// (compared through fmt, which sorts map keys: reflect.DeepEqual would reject NaN == NaN)
+			if fmt.Sprintf("%#v", ordered.ToMapRecursive(u.Contents)) != fmt.Sprintf("%#v", ordered.ToMapRecursive(entries[i])) {
 				return fmt.Sprintf("%s[%d]: unknown step does not hold the entry verbatim: %v vs %v", where, i, u.Contents, entries[i])
 			}
 			continue
@@ -261,6 +296,13 @@ func check(data []byte) (msg string, inScope bool) {
 		return fmt.Sprintf("%d step(s) fell back to unknown steps but no warning was returned", fallbacks), true
 	}
 	if _, err := json.Marshal(o.p); err != nil {
+		if nonFinite(err) {
+			if what, ok := knownOpen("C13", "non-finite-float"); ok {
+				knownHits++
+				knownWhat = what
+				return "", true
+			}
+		}
 		return "json.Marshal of the parsed pipeline fails: " + err.Error(), true
 	}
 	if err := func() (err error) {
@@ -446,6 +488,9 @@ func TestC13(t *testing.T) {
 				run(text)
 			}
 		}
+	}
+	if knownHits > 0 {
+		fmt.Printf("KNOWN-FINDING: property=C13 %s (%d inputs)\n", knownWhat, knownHits)
 	}
 	fmt.Printf("BOUNDED name=c13-parse cases=%d failures=%d skipped_out_of_scope=%d corpus=%d\n", cases, failures, skipped, len(corp))
 }
